@@ -26,11 +26,21 @@ class ElementProgram:
         if tokenizer is None:
             tokenizer = self.tokenizers[mode]
         tokens = tokenizer(source, filename)
+
+        self.body = []
+
+        if mode == "text":
+            # A text template is character data only: nothing in it is
+            # markup, even if it looks like a tag or a declaration.
+            for token in tokens:
+                node = self.visit("text", (token, ))
+                if node is not None:
+                    self.body.append(node)
+            return
+
         parser = ElementParser(
             tokens, self.DEFAULT_NAMESPACES, self.restricted_namespace
         )
-
-        self.body = []
 
         for kind, args in parser:
             node = self.visit(kind, args)
